@@ -73,6 +73,16 @@ def body(ck, F, cfg):
         except Unanalysable as u:
             ck.fail("R08.1", f"term-run:{name}", f"entry point could not be interpreted: {u.msg}", u.where, kind="unanalysable")
     wire.check_decode(ck, F, "R08.3")
+    # the decoders of the proof types are the derive-generated ones (their behaviour on hostile input - bounded
+    # allocation, no panic - is ark-serialize's, pinned below); a hand-written decoder is not covered by this analysis
+    n_codec = 0
+    for adt_ in ("r1cs::proof::R1CSProof", "inner_product_proof::InnerProductProof"):
+        for imp in F.items["impls"]:
+            tr_ = imp["trait"] or ""
+            if imp["self_ty"].startswith(adt_) and tr_.startswith("ark_serialize::") and tr_.split("::")[-1].split("<")[0] in ("CanonicalDeserialize", "Valid"):
+                n_codec += 1
+                ck.require((imp.get("expn") or "").startswith("Derive"), "R08.3", f"derived-decoder:{adt_.split('::')[-1]}:{tr_.split('::')[-1]}", f"{tr_} for {adt_} is hand-written: its allocation and panic behaviour on hostile input is not covered (the derived decoder reads length-prefixed lists element by element)", FX.short(imp.get("sp")), kind_hint="unanalysable")
+    ck.floor("decoder impls of the proof types", n_codec, 4)
     log = [e for e in IN.SAFETY_LOG if e["F"] == id(F)]
     reachable, edges = PN.reach(F, PN.ENTRY)
     for p in reachable:
